@@ -1,25 +1,28 @@
-(* Finite obligations of C20 over the generated tables other than the 65536-type sweeps. *)
+(* Finite obligations of C20 over the generated tables other than the 65536-type
+   sweeps.  Each is stated in exactly the shape filter_nil_forall consumes. *)
 From Coq Require Import List NArith ZArith Bool String.
 Require Import Bytes Tables.
-Lemma errno_names_ok : bad_errno_names = nil. Proof. vm_compute. reflexivity. Qed.
-Lemma errno_nums_ok : bad_errno_nums = nil. Proof. vm_compute. reflexivity. Qed.
-Lemma arch_nodup_ok : arch_names_nodup = true. Proof. vm_compute. reflexivity. Qed.
-Lemma arch_fwd_ok : bad_arch_fwd = nil. Proof. vm_compute. reflexivity. Qed.
-Lemma arch_rev_ok : bad_arch_rev = nil. Proof. vm_compute. reflexivity. Qed.
-Lemma syscall_dups_ok : bad_syscall_dups = nil. Proof. vm_compute. reflexivity. Qed.
-Lemma syscall_fwd_ok : bad_syscall_fwd = nil. Proof. vm_compute. reflexivity. Qed.
-Lemma syscall_rev_ok : bad_syscall_rev = nil. Proof. vm_compute. reflexivity. Qed.
-Lemma syscall_arches_ok : syscall_arches_agree = true. Proof. vm_compute. reflexivity. Qed.
-Lemma ops_fwd_ok : bad_ops_fwd = nil. Proof. vm_compute. reflexivity. Qed.
-Lemma ops_rev_ok : bad_ops_rev = nil. Proof. vm_compute. reflexivity. Qed.
-Lemma fields_fwd_ok : bad_fields_fwd = nil. Proof. vm_compute. reflexivity. Qed.
-Lemma fields_rev_ok : bad_fields_rev = nil. Proof. vm_compute. reflexivity. Qed.
-Lemma comparisons_sym_ok : bad_comparisons_sym = nil. Proof. vm_compute. reflexivity. Qed.
-Lemma comparisons_rev_missing_ok : bad_comparisons_rev_missing = nil. Proof. vm_compute. reflexivity. Qed.
-Lemma comparisons_rev_ok : bad_comparisons_rev = nil. Proof. vm_compute. reflexivity. Qed.
-Lemma comparison_fields_ok : bad_comparison_fields = nil. Proof. vm_compute. reflexivity. Qed.
-Lemma norm_syscalls_nodup_ok : norm_syscalls_nodup = true. Proof. vm_compute. reflexivity. Qed.
-Lemma norm_record_types_nodup_ok : norm_record_types_nodup = true. Proof. vm_compute. reflexivity. Qed.
-Lemma norm_has_fields_ok : bad_norm_has_fields = nil. Proof. vm_compute. reflexivity. Qed.
-Lemma event_types_total_ok : event_types_total = true. Proof. vm_compute. reflexivity. Qed.
-Lemma event_types_repeatable_ok : event_types_repeatable = true. Proof. vm_compute. reflexivity. Qed.
+Require Import MsgTypes Errno Arch Syscalls RuleTables Norms EventTypes.
+Import ListNotations.
+Lemma errno_names_ok : filter (fun e => negb (errno_name_okb e)) errno_to_name = []. Proof. by_vm. Qed.
+Lemma errno_nums_ok : filter (fun e => negb (errno_num_okb e)) errno_to_num = []. Proof. by_vm. Qed.
+Lemma arch_nodup_ok : arch_names_nodup = true. Proof. by_vm. Qed.
+Lemma arch_fwd_ok : filter (fun e => negb (arch_fwd_okb e)) arch_names = []. Proof. by_vm. Qed.
+Lemma arch_rev_ok : filter (fun e => negb (arch_rev_okb e)) reverse_arch = []. Proof. by_vm. Qed.
+Lemma syscall_dups_ok : filter (fun e => negb (syscall_nodup_okb e)) syscalls = []. Proof. by_vm. Qed.
+Lemma syscall_fwd_ok : filter (fun e => negb (syscall_fwd_okb e)) syscalls_flat = []. Proof. by_vm. Qed.
+Lemma syscall_rev_ok : filter (fun e => negb (syscall_rev_okb e)) rsyscalls_flat = []. Proof. by_vm. Qed.
+Lemma syscall_arches_ok : syscall_arches_agree = true. Proof. by_vm. Qed.
+Lemma ops_fwd_ok : filter (fun e => negb (ops_fwd_okb e)) operators_table = []. Proof. by_vm. Qed.
+Lemma ops_rev_ok : filter (fun e => negb (ops_rev_okb e)) reverse_operators_table = []. Proof. by_vm. Qed.
+Lemma fields_fwd_ok : filter (fun e => negb (fields_fwd_okb e)) fields_table = []. Proof. by_vm. Qed.
+Lemma fields_rev_ok : filter (fun e => negb (fields_rev_okb e)) reverse_fields_table = []. Proof. by_vm. Qed.
+Lemma comparisons_sym_ok : filter (fun e => negb (comparison_sym_okb e)) comparisons_flat = []. Proof. by_vm. Qed.
+Lemma comparisons_rev_missing_ok : filter (fun e => negb (comparison_has_rev_okb e)) comparisons_flat = []. Proof. by_vm. Qed.
+Lemma comparisons_rev_ok : filter (fun e => negb (comparison_rev_okb e)) reverse_comparisons_table = []. Proof. by_vm. Qed.
+Lemma comparison_fields_ok : filter (fun f => negb (field_nameable_okb f)) comparison_operands = []. Proof. by_vm. Qed.
+Lemma norm_syscalls_nodup_ok : norm_syscalls_nodup = true. Proof. by_vm. Qed.
+Lemma norm_record_types_nodup_ok : norm_record_types_nodup = true. Proof. by_vm. Qed.
+Lemma norm_has_fields_ok : filter (fun e => negb (norm_has_fields_okb e)) norm_record_types = []. Proof. by_vm. Qed.
+Lemma event_types_total_ok : event_types_total = true. Proof. by_vm. Qed.
+Lemma event_types_repeatable_ok : event_types_repeatable = true. Proof. by_vm. Qed.
